@@ -58,6 +58,8 @@ struct Behaviour {
     modu: u64,
     alloc_n: u64,
     alloc_sz: u64,
+    /// grow the first block by this many bytes and shrink it back (0 = no reallocation)
+    realloc_by: u64,
     bcounters: Vec<(u8, u64)>,
     /// 0 bench, 1 bench_local, 2 with_inputs+bench_values, 3 no bench call, 4 bench_refs with input counter (items = id)
     mode: u8,
@@ -161,6 +163,7 @@ fn parse_beh(s: &str) -> Behaviour {
             "mod" => b.modu = v.parse::<u64>().unwrap().max(1),
             "an" => b.alloc_n = v.parse().unwrap(),
             "az" => b.alloc_sz = v.parse().unwrap(),
+            "rg" => b.realloc_by = v.parse().unwrap(),
             "mode" => b.mode = v.parse().unwrap(),
             "bc" => {
                 for p in v.split(',').filter(|x| !x.is_empty()) {
@@ -245,6 +248,16 @@ fn body_call(bid: usize) {
             assert!(!b.is_null());
         }
         std::hint::black_box(&blocks);
+        if beh.realloc_by > 0 {
+            let grown = layout.size() + beh.realloc_by as usize;
+            unsafe {
+                blocks[0] = std::alloc::realloc(blocks[0], layout, grown);
+                assert!(!blocks[0].is_null());
+                blocks[0] = std::alloc::realloc(blocks[0], std::alloc::Layout::from_size_align(grown, 8).unwrap(), layout.size());
+                assert!(!blocks[0].is_null());
+            }
+            std::hint::black_box(&blocks);
+        }
         for b in blocks.iter().take(n) {
             unsafe { std::alloc::dealloc(*b, layout) };
         }
